@@ -3,6 +3,7 @@
  *
  * usage: synthetic <ncases> <ops-file> <out-file> <stats-file>      (generate; seed = VERIF_SEED)
  *        synthetic --replay <ops-file> <out-file>
+ *        synthetic --desc <description> <F> <ops-file> <out-file>  (the ops of one description under one filter string)
  *
  * ops (one per line, each self-contained: the description travels as hex):
  *   init <junk> <hex>           direct call on a malloc'ed data block pre-filled with the byte of `junk`
@@ -10,6 +11,10 @@
  *   load <hex> <dump;...>       set+load through the public API, canonical dump (harness/dump.h) joined by ';'
  *   export <flags> <cap> <hex>  hwloc_topology_export_synthetic() into an exact-size heap buffer
  *   fix <flags> <hex>           export / reload / export
+ * A description token is <hex> or <hex>@<F>: F = 20 characters, one per object type (hwloc_obj_type_t order), '-' = leave the
+ * default type filter, '0'..'3' = hwloc_topology_set_type_filter(topology, type, digit) between init and load (a refused
+ * request is ignored, as a caller that does not test the return value would).  Without '@' the historic setting is used:
+ * I-caches and MemCache KEEP_ALL (LEGACY_F).  init/set ignore F.
  * Every call that can abort or corrupt memory is first tried in a forked child ("crash").
  * Required ASAN_OPTIONS (set by tools/eng_synthetic.py and by default below): allocations above 64 MB fail
  * (mirrored by Hw.Syn.allocLimit).
@@ -29,9 +34,32 @@ const char *__asan_default_options(void) {
 static FILE *fops, *fout;
 static unsigned long stats[64];
 static const char *stat_names[64] = {"typed", "untyped", "deep", "mutated", "alphabet", "raw", "indexes", "boundary",
-  "set_ok", "set_einval", "crash", "loaded", "export_ops", "fix_ops", "init_junk", "not_loadable", "tile_skipped", "attached", 0};
+  "set_ok", "set_einval", "crash", "loaded", "export_ops", "fix_ops", "init_junk", "not_loadable", "tile_skipped", "attached",
+  "flt_loads", "flt_default", "flt_level_dropped", "flt_att_on_dropped", "flt_att_on_icache", "flt_numa_dropped_above_or_below", "flt_keep_structure",
+  "flt_group_none", "flt_memcache_none_with_msc", "flt_refused_request", "att_icache_desc", 0};
 enum { S_TYPED, S_UNTYPED, S_DEEP, S_MUT, S_ALPHA, S_RAW, S_IDX, S_BOUND, S_SETOK, S_SETINV, S_CRASH, S_LOADED, S_EXPORT, S_FIX,
-       S_JUNK, S_NOTLOAD, S_TILE, S_ATT };
+       S_JUNK, S_NOTLOAD, S_TILE, S_ATT,
+       S_FLOAD, S_FDEF, S_FDROP, S_FATTDROP, S_FATTIC, S_FNUMADROP, S_FKS, S_FGRPNONE, S_FMCNONE, S_FREFUSED, S_ATTIC };
+
+#define LEGACY_F "----------000--0----"
+#define NTYPES 20
+static int valid_f(const char *f) {
+  if (strlen(f) != NTYPES) return 0;
+  for (int i = 0; i < NTYPES; i++) if (!strchr("-0123", f[i])) return 0;
+  return 1;
+}
+/* the caller-side part of the configuration: type filters set between init and load; returns the number of refused requests */
+static int apply_filters(hwloc_topology_t t, const char *f) {
+  int refused = 0;
+  for (int i = 0; i < NTYPES && f[i]; i++)
+    if (f[i] != '-' && hwloc_topology_set_type_filter(t, (hwloc_obj_type_t) i, (enum hwloc_type_filter_e) (f[i] - '0')) < 0) refused++;
+  return refused;
+}
+static void put_hex(FILE *f, const char *s);
+static void put_desc(FILE *f, const char *s, const char *flt) {
+  put_hex(f, s);
+  if (strcmp(flt, LEGACY_F)) fprintf(f, "@%s", flt);
+}
 
 static void put_hex(FILE *f, const char *s) {
   if (!*s) { fputc('-', f); return; }
@@ -54,7 +82,16 @@ static struct hwloc_synthetic_backend_data_s *alloc_data(unsigned junk) {
 }
 
 /* run init in a child: 0 = accepted, 1 = rejected, 2 = crashed (signal, sanitizer report, failed assert) */
+static int probe_init_raw(const char *s, unsigned junk);
+/* (the verdict of the last junk-free probe is remembered: set / load decisions ask for the same string again) */
 static int probe_init(const char *s, unsigned junk) {
+  static char *last; static int last_r;
+  if (!junk && last && !strcmp(last, s)) return last_r;
+  int r = probe_init_raw(s, junk);
+  if (!junk) { free(last); last = strdup(s); last_r = r; }
+  return r;
+}
+static int probe_init_raw(const char *s, unsigned junk) {
   fflush(NULL);
   pid_t p = fork();
   if (p == 0) {
@@ -71,14 +108,24 @@ static int probe_init(const char *s, unsigned junk) {
   return 2;
 }
 /* same for set+load through the public API (load-time asserts) */
-static int probe_load(const char *s) {
+static int probe_load_raw(const char *s, const char *flt);
+/* (a few verdicts are remembered: the exports of one topology under different flags are often the same string) */
+static int probe_load(const char *s, const char *flt) {
+  static struct { char *s; char f[24]; int r; } memo[16]; static unsigned nx;
+  for (int i = 0; i < 16; i++) if (memo[i].s && !strcmp(memo[i].s, s) && !strcmp(memo[i].f, flt)) return memo[i].r;
+  int r = probe_load_raw(s, flt);
+  free(memo[nx].s); memo[nx].s = strdup(s); snprintf(memo[nx].f, sizeof memo[nx].f, "%s", flt); memo[nx].r = r;
+  nx = (nx + 1) % 16;
+  return r;
+}
+static int probe_load_raw(const char *s, const char *flt) {
   fflush(NULL);
   pid_t p = fork();
   if (p == 0) {
     int fd = open("/dev/null", O_WRONLY); if (fd >= 0) { dup2(fd, 2); }
     alarm(60);
     hwloc_topology_t t; hwloc_topology_init(&t);
-    hwloc_topology_set_icache_types_filter(t, HWLOC_TYPE_FILTER_KEEP_ALL); hwloc_topology_set_type_filter(t, HWLOC_OBJ_MEMCACHE, HWLOC_TYPE_FILTER_KEEP_ALL);
+    apply_filters(t, flt);
     if (hwloc_topology_set_synthetic(t, s) < 0) _exit(11);
     if (hwloc_topology_load(t) < 0) _exit(12);
     hwloc_topology_check(t);      /* aborts on an inconsistent topology: reported as "crash" */
@@ -147,6 +194,14 @@ static int loadable(struct hwloc_synthetic_backend_data_s *d) {
       for (unsigned long k = 0; k < l->totalwidth; k++) if (l->indexes.array[k] >= 65536) return 0;
   }
   if (d->level[count - 1].totalwidth > 4096) return 0;
+  /* the total memory of the machine must fit the uint64 total_memory fields (and the signed numbers of harness/dump.h) */
+  unsigned __int128 tot = 0;
+  for (unsigned i = 0; i < count; i++) {
+    struct hwloc_synthetic_level_data_s *l = &d->level[i];
+    if (i && l->attr.type == HWLOC_OBJ_NUMANODE) tot += (unsigned __int128) l->totalwidth * l->attr.memorysize;
+    for (struct hwloc_synthetic_attached_s *a = l->attached; a; a = a->next) tot += (unsigned __int128) l->totalwidth * a->attr.memorysize;
+  }
+  if (tot >> 62) return 0;
   return 1;
 }
 
@@ -174,25 +229,25 @@ static void exec_set(const char *s) {
   hwloc_topology_destroy(t);
 }
 
-static hwloc_topology_t load_topo(const char *s) {
+static hwloc_topology_t load_topo(const char *s, const char *flt) {
   hwloc_topology_t t; hwloc_topology_init(&t);
-  hwloc_topology_set_icache_types_filter(t, HWLOC_TYPE_FILTER_KEEP_ALL); hwloc_topology_set_type_filter(t, HWLOC_OBJ_MEMCACHE, HWLOC_TYPE_FILTER_KEEP_ALL);
+  apply_filters(t, flt);
   if (hwloc_topology_set_synthetic(t, s) < 0 || hwloc_topology_load(t) < 0) { hwloc_topology_destroy(t); return NULL; }
   return t;
 }
 
 /* cached topology for consecutive ops on the same description */
-static char *cur_s; static hwloc_topology_t cur_t;
-static hwloc_topology_t get_topo(const char *s) {
-  if (cur_s && !strcmp(cur_s, s)) return cur_t;
+static char *cur_s; static char cur_f[NTYPES + 1]; static hwloc_topology_t cur_t;
+static hwloc_topology_t get_topo(const char *s, const char *flt) {
+  if (cur_s && !strcmp(cur_s, s) && !strcmp(cur_f, flt)) return cur_t;
   if (cur_t) hwloc_topology_destroy(cur_t);
-  free(cur_s); cur_s = strdup(s);
-  cur_t = load_topo(s);
+  free(cur_s); cur_s = strdup(s); snprintf(cur_f, sizeof cur_f, "%s", flt);
+  cur_t = load_topo(s, flt);
   return cur_t;
 }
 
-static void exec_export(unsigned long flags, size_t cap, const char *s) {
-  hwloc_topology_t t = get_topo(s);
+static void exec_export(unsigned long flags, size_t cap, const char *s, const char *flt) {
+  hwloc_topology_t t = get_topo(s, flt);
   if (!t) { fputs("load fail\n", fout); return; }
   char *buf = malloc(cap ? cap : 1);
   memset(buf, 0xAA, cap ? cap : 1);
@@ -205,17 +260,38 @@ static void exec_export(unsigned long flags, size_t cap, const char *s) {
   free(buf);
 }
 
-static void exec_fix(unsigned long flags, const char *s) {
-  hwloc_topology_t t = get_topo(s);
+/* the precondition of the round-trip clause: every object of a level carries the same memory children (sizes, by position) */
+static int mem_symmetric(hwloc_topology_t t) {
+  int d = hwloc_topology_get_depth(t);
+  for (int i = 0; i < d; i++) {
+    unsigned n = hwloc_get_nbobjs_by_depth(t, i);
+    hwloc_obj_t o0 = hwloc_get_obj_by_depth(t, i, 0);
+    for (unsigned k = 1; k < n; k++) {
+      hwloc_obj_t o = hwloc_get_obj_by_depth(t, i, k);
+      if (o->memory_arity != o0->memory_arity) return 0;
+      for (hwloc_obj_t a = o0->memory_first_child, b = o->memory_first_child; a && b; a = a->next_sibling, b = b->next_sibling)
+        for (hwloc_obj_t x = a, y = b; x && y; x = x->memory_first_child, y = y->memory_first_child) {
+          if (x->type != y->type) return 0;
+          if (x->type == HWLOC_OBJ_NUMANODE) { if (x->attr->numanode.local_memory != y->attr->numanode.local_memory) return 0; break; }
+          if (x->attr->cache.size != y->attr->cache.size) return 0;
+        }
+    }
+  }
+  return 1;
+}
+
+static void exec_fix(unsigned long flags, const char *s, const char *flt) {
+  hwloc_topology_t t = get_topo(s, flt);
   if (!t) { fputs("load fail\n", fout); return; }
   static char b1[1 << 20], b2[1 << 20];
   int r1 = hwloc_topology_export_synthetic(t, b1, sizeof b1, flags);
   if (r1 < 0) { fputs("fix export-fail\n", fout); return; }
   fputs("fix ", fout); put_hex(fout, b1);
-  int pr = probe_load(b1);
+  /* the exported string is re-imported with every type it can name kept (LEGACY_F), whatever filters built `t` */
+  int pr = probe_load(b1, LEGACY_F);
   if (pr == 1) { fputs(" load2=EINVAL\n", fout); return; }
   if (pr != 0) { fputs(pr == 3 ? " load2=crash\n" : " load2=loadfail\n", fout); return; }
-  hwloc_topology_t t2 = load_topo(b1);
+  hwloc_topology_t t2 = load_topo(b1, LEGACY_F);
   if (!t2) { fputs(" load2=fail\n", fout); return; }
   int r2 = hwloc_topology_export_synthetic(t2, b2, sizeof b2, flags);
   if (r2 < 0) { fputs(" load2=ok export2-fail\n", fout); hwloc_topology_destroy(t2); return; }
@@ -248,65 +324,197 @@ static void exec_fix(unsigned long flags, const char *s) {
       }
     }
   }
-  fprintf(fout, " load2=ok same=%d rt=%d\n", !strcmp(b1, b2), rt);
+  /* memory attached asymmetrically (e.g. NUMA indexes that order the nodes of one parent differently from those of another):
+     outside the round-trip clause of the property, the export keeps the sizes of the first object only */
+  if (!rt && !nomem && !noattrs && !mem_symmetric(t)) fprintf(fout, " load2=ok same=%d rt=asym\n", !strcmp(b1, b2));
+  else fprintf(fout, " load2=ok same=%d rt=%d\n", !strcmp(b1, b2), rt);
   hwloc_topology_destroy(t2);
 }
 
 /* emit + execute the ops for one description */
 static int env_on(const char *n) { const char *e = getenv(n); return e && *e && strcmp(e, "0"); }
 
-static void emit_load(const char *s) {
-  /* decide on the C side whether the accepted description is small enough to load */
-  struct hwloc_synthetic_backend_data_s *d = alloc_data(0);
-  if (hwloc_backend_synthetic_init(d, s) < 0) { free(d); return; }
-  int ok = loadable(d);
-  hwloc_synthetic_free_levels(d); free(d->string); free(d);
-  if (!ok) { stats[S_NOTLOAD]++; return; }
-  int pr = probe_load(s);
+/* the NUMA nodes of the loaded topology through the public API, by os_index: os/local memory/summed memory-side cache sizes above
+ * it/PUs of its cpuset.  Live on replay too (the dump of a `load` op is a recording). */
+static int cmp_os(const void *a, const void *b) {
+  unsigned x = (*(hwloc_obj_t const *) a)->os_index, y = (*(hwloc_obj_t const *) b)->os_index;
+  return x < y ? -1 : x > y;
+}
+static void exec_numas(const char *s, const char *flt) {
+  hwloc_topology_t t = get_topo(s, flt);
+  if (!t) { fputs("numas fail\n", fout); return; }
+  int n = hwloc_get_nbobjs_by_type(t, HWLOC_OBJ_NUMANODE);
+  hwloc_obj_t *v = malloc((n + 1) * sizeof(*v));
+  for (int i = 0; i < n; i++) v[i] = hwloc_get_obj_by_type(t, HWLOC_OBJ_NUMANODE, i);
+  qsort(v, n, sizeof(*v), cmp_os);
+  fprintf(fout, "numas %d", n);
+  for (int i = 0; i < n; i++) {
+    unsigned long long msc = 0;
+    for (hwloc_obj_t p = v[i]->parent; p && p->type == HWLOC_OBJ_MEMCACHE; p = p->parent) msc += p->attr->cache.size;
+    fprintf(fout, " %u/%llu/%llu/", v[i]->os_index, (unsigned long long) v[i]->attr->numanode.local_memory, msc);
+    int first = 1; unsigned id;
+    hwloc_bitmap_foreach_begin(id, v[i]->cpuset) { fprintf(fout, "%s%u", first ? "" : ",", id); first = 0; } hwloc_bitmap_foreach_end();
+    if (first) fputc('-', fout);
+  }
+  fputc('\n', fout);
+  free(v);
+}
+
+/* a type-filter configuration for the description whose parsed levels are in `d`: biased towards dropping (KEEP_NONE) the
+ * type of a level that carries attached NUMA nodes, of a neighbour of the NUMA level, of any level; also KEEP_STRUCTURE,
+ * KEEP_IMPORTANT, requests the library refuses, and the plain defaults */
+static void gen_filters(struct hwloc_synthetic_backend_data_s *d, char *f) {
+  unsigned count = data_count(d);
+  memset(f, '-', NTYPES); f[NTYPES] = 0;
+  if (rng_chance(22)) return;                                   /* library defaults: I-caches and MemCache KEEP_NONE */
+  if (rng_chance(35)) memcpy(f, LEGACY_F, NTYPES);              /* on top of "everything visible" */
+  static const int filterable[] = {HWLOC_OBJ_PACKAGE, HWLOC_OBJ_DIE, HWLOC_OBJ_CORE, HWLOC_OBJ_L1CACHE, HWLOC_OBJ_L2CACHE, HWLOC_OBJ_L3CACHE,
+    HWLOC_OBJ_L4CACHE, HWLOC_OBJ_L5CACHE, HWLOC_OBJ_L1ICACHE, HWLOC_OBJ_L2ICACHE, HWLOC_OBJ_L3ICACHE, HWLOC_OBJ_GROUP, HWLOC_OBJ_MEMCACHE};
+  /* the types of the levels of this description (root and PU excluded) */
+  int lt[160], nlt = 0, att[160], natt = 0, numa_at = -1;
+  for (unsigned i = 1; i + 1 < count; i++) {
+    int ty = (int) d->level[i].attr.type;
+    if (ty == HWLOC_OBJ_NUMANODE) { numa_at = (int) i; continue; }
+    if (ty < 0 || ty >= NTYPES) continue;
+    lt[nlt++] = ty;
+    if (d->level[i].attached) att[natt++] = ty;
+  }
+  if (natt && rng_chance(70)) f[att[rng_below(natt)]] = rng_chance(80) ? '1' : '2';
+  if (numa_at > 0 && rng_chance(50)) {
+    int j = numa_at + (rng_chance(50) ? 1 : -1);
+    if (j >= 1 && j + 1 < (int) count) { int ty = (int) d->level[j].attr.type; if (ty > 0 && ty < NTYPES && ty != HWLOC_OBJ_NUMANODE) f[ty] = '1'; }
+  }
+  int k = rng_below(4);
+  for (int i = 0; i < k && nlt; i++) {
+    int ty = lt[rng_below(nlt)];
+    if (ty == HWLOC_OBJ_GROUP && !rng_chance(30)) continue;    /* without Groups most NUMA placements leave the modelled class */
+    unsigned r = rng_below(100);
+    f[ty] = r < 55 ? '1' : r < 75 ? '0' : r < 90 ? '2' : '3';
+  }
+  if (rng_chance(20)) f[filterable[rng_below(13)]] = "0123"[rng_below(4)];
+  if (rng_chance(25)) f[HWLOC_OBJ_MEMCACHE] = "0013"[rng_below(4)];
+  if (rng_chance(6)) {                                          /* requests hwloc_topology_set_type_filter() refuses */
+    static const char *bad[] = {"41", "42", "e1", "e3", "01", "d0", "d3", "j2", "g2", "h2", "i2"};   /* <type in base 36><filter> */
+    const char *b = bad[rng_below(11)];
+    int ty = b[0] >= 'a' ? b[0] - 'a' + 10 : b[0] - '0';
+    f[ty] = b[1];
+  }
+  if (rng_chance(5)) f[HWLOC_OBJ_MISC] = "013"[rng_below(3)];
+}
+
+/* coverage counters of a filtered load */
+static void count_filters(struct hwloc_synthetic_backend_data_s *d, const char *flt) {
+  unsigned count = data_count(d);
+  hwloc_topology_t t; hwloc_topology_init(&t);
+  if (apply_filters(t, flt)) stats[S_FREFUSED]++;
+  enum hwloc_type_filter_e e[NTYPES];
+  for (int i = 0; i < NTYPES; i++) hwloc_topology_get_type_filter(t, (hwloc_obj_type_t) i, &e[i]);
+  hwloc_topology_destroy(t);
+  int drop = 0, attdrop = 0, attic = 0, numadrop = 0, ks = 0, msc = 0;
+  for (unsigned i = 1; i + 1 < count; i++) {
+    int ty = (int) d->level[i].attr.type;
+    if (ty < 0 || ty >= NTYPES) continue;
+    for (struct hwloc_synthetic_attached_s *a = d->level[i].attached; a; a = a->next) if (a->attr.memorysidecachesize) msc = 1;
+    if (ty == HWLOC_OBJ_NUMANODE && d->level[i].attr.memorysidecachesize) msc = 1;
+    if (e[ty] == HWLOC_TYPE_FILTER_KEEP_STRUCTURE && ty != HWLOC_OBJ_GROUP) ks = 1;
+    if (e[ty] != HWLOC_TYPE_FILTER_KEEP_NONE) continue;
+    drop = 1;
+    if (d->level[i].attached) { attdrop = 1; if (ty >= HWLOC_OBJ_L1ICACHE && ty <= HWLOC_OBJ_L3ICACHE) attic = 1; }
+    if (d->level[i - 1].attr.type == HWLOC_OBJ_NUMANODE || d->level[i + 1].attr.type == HWLOC_OBJ_NUMANODE) numadrop = 1;
+  }
+  for (struct hwloc_synthetic_attached_s *a = d->level[0].attached; a; a = a->next) if (a->attr.memorysidecachesize) msc = 1;
+  stats[S_FLOAD]++;
+  if (!strcmp(flt, "--------------------")) stats[S_FDEF]++;
+  stats[S_FDROP] += drop; stats[S_FATTDROP] += attdrop; stats[S_FATTIC] += attic; stats[S_FNUMADROP] += numadrop; stats[S_FKS] += ks;
+  if (e[HWLOC_OBJ_GROUP] == HWLOC_TYPE_FILTER_KEEP_NONE) stats[S_FGRPNONE]++;
+  if (msc && e[HWLOC_OBJ_MEMCACHE] == HWLOC_TYPE_FILTER_KEEP_NONE) stats[S_FMCNONE]++;
+}
+
+/* load + dump + exports of `s` under the filter configuration `flt`; `all` = the complete export programme */
+static int emit_load_cfg(const char *s, const char *flt, int all) {
+  int pr = probe_load(s, flt);
   if (pr != 0) {
     /* accepted but load fails/crashes: reported as an op whose C answer cannot match the model */
-    fputs("load ", fops); put_hex(fops, s); fputs(" TOPO\n", fops);
+    fputs("load ", fops); put_desc(fops, s, flt); fputs(" TOPO\n", fops);
     fprintf(fout, "load %s\n", pr == 3 ? "crash" : "fail");
-    return;
+    return 0;
   }
-  hwloc_topology_t t = get_topo(s);
-  if (!t) return;
+  hwloc_topology_t t = get_topo(s, flt);
+  if (!t) return 0;
   char *mem = NULL; size_t len = 0;
   FILE *m = open_memstream(&mem, &len);
   dump_topology(m, t, "c");
   fclose(m);
   for (size_t i = 0; i < len; i++) if (mem[i] == '\n') mem[i] = ';';
-  fputs("load ", fops); put_hex(fops, s); fputc(' ', fops); fwrite(mem, 1, len, fops); fputc('\n', fops);
+  fputs("load ", fops); put_desc(fops, s, flt); fputc(' ', fops); fwrite(mem, 1, len, fops); fputc('\n', fops);
   free(mem);
   fputs("load ok\n", fout);
   stats[S_LOADED]++;
+  fputs("numas ", fops); put_desc(fops, s, flt); fputc('\n', fops);
+  exec_numas(s, flt);
   /* exports */
   int need = hwloc_topology_export_synthetic(t, NULL, 0, 0);
-  int full = need >= 0 && need <= 160 && rng_chance(35);
+  int full = all && need >= 0 && need <= 160 && rng_chance(35);
   for (unsigned long flags = 0; flags < 16; flags++) {
+    if (!all && flags && !rng_chance(12)) continue;
     int nd = hwloc_topology_export_synthetic(t, NULL, 0, flags);
     if (nd < 0) nd = 40;
     if (full && (flags == 0 || rng_chance(15))) {
       for (int cap = 0; cap <= nd + 1; cap++) {
-        fprintf(fops, "export %lu %d ", flags, cap); put_hex(fops, s); fputc('\n', fops);
-        exec_export(flags, cap, s); stats[S_EXPORT]++;
+        fprintf(fops, "export %lu %d ", flags, cap); put_desc(fops, s, flt); fputc('\n', fops);
+        exec_export(flags, cap, s, flt); stats[S_EXPORT]++;
       }
     } else {
       int caps[4] = {nd + 1, nd, (int) rng_below(nd + 2), rng_chance(50) ? 0 : 1};
       for (int k = 0; k < 4; k++) {
         if (k >= 1 && !rng_chance(40)) continue;
-        fprintf(fops, "export %lu %d ", flags, caps[k]); put_hex(fops, s); fputc('\n', fops);
-        exec_export(flags, caps[k], s); stats[S_EXPORT]++;
+        fprintf(fops, "export %lu %d ", flags, caps[k]); put_desc(fops, s, flt); fputc('\n', fops);
+        exec_export(flags, caps[k], s, flt); stats[S_EXPORT]++;
       }
     }
-    if (flags == 0 || rng_chance(40)) {
-      fprintf(fops, "fix %lu ", flags); put_hex(fops, s); fputc('\n', fops);
-      exec_fix(flags, s); stats[S_FIX]++;
+    /* PARKED (genuine quirk, reported): with Group KEEP_NONE a NUMA node local to a part of the machine hangs from the root even
+       when the root has a single child with the root's cpuset (the child is inserted later); the export is then
+       "[NUMANode] Package:1 ..." whose re-import attaches the node to the Package: export/import/export is not a fixpoint.
+       e.g. "Package:1 group:3 numa:1 pu:1" with Group KEEP_NONE.  No round-trip op under that filter. */
+    if ((flags == 0 || rng_chance(40)) && flt[HWLOC_OBJ_GROUP] != '1') {
+      fprintf(fops, "fix %lu ", flags); put_desc(fops, s, flt); fputc('\n', fops);
+      exec_fix(flags, s, flt); stats[S_FIX]++;
     }
   }
-  /* an invalid flag word */
-  fprintf(fops, "export %lu %d ", 16ul + rng_below(3) * 16, 8); put_hex(fops, s); fputc('\n', fops);
-  exec_export(16, 8, s);
+  if (all) {
+    /* an invalid flag word */
+    fprintf(fops, "export %lu %d ", 16ul + rng_below(3) * 16, 8); put_desc(fops, s, flt); fputc('\n', fops);
+    exec_export(16, 8, s, flt);
+  }
+  return 1;
+}
+
+static void emit_load(const char *s) {
+  /* decide on the C side whether the accepted description is small enough to load */
+  struct hwloc_synthetic_backend_data_s *d = alloc_data(0);
+  if (hwloc_backend_synthetic_init(d, s) < 0) { free(d); return; }
+  int ok = loadable(d);
+  char flt[2][NTYPES + 1]; int nf = 0;
+  if (ok) {
+    /* besides the historic "everything visible" configuration: one or two generated type-filter configurations */
+    int interesting = 0;
+    unsigned count = data_count(d);
+    for (unsigned i = 1; i + 1 < count; i++) {
+      hwloc_obj_type_t ty = d->level[i].attr.type;
+      if (d->level[i].attached || (ty >= HWLOC_OBJ_L1ICACHE && ty <= HWLOC_OBJ_L3ICACHE)) interesting = 1;
+      if (d->level[i].attached && ty >= HWLOC_OBJ_L1ICACHE && ty <= HWLOC_OBJ_L3ICACHE) { stats[S_ATTIC]++; }
+    }
+    nf = interesting ? 1 + rng_chance(40) : rng_chance(50);
+    /* the filters act on levels, not on widths: wide topologies (dumps of megabytes) are mostly left to the historic configuration */
+    unsigned long sumw = 0;
+    for (unsigned i = 0; i < count; i++) sumw += d->level[i].totalwidth;
+    if (sumw > 600 && !rng_chance(10)) nf = 0;
+    for (int k = 0; k < nf; k++) { gen_filters(d, flt[k]); count_filters(d, flt[k]); }
+  }
+  hwloc_synthetic_free_levels(d); free(d->string); free(d);
+  if (!ok) { stats[S_NOTLOAD]++; return; }
+  if (!emit_load_cfg(s, LEGACY_F, 1)) return;
+  for (int k = 0; k < nf; k++) emit_load_cfg(s, flt[k], 0);
 }
 
 static void run_string(const char *s) {
@@ -430,7 +638,7 @@ static void lvl(const char *name, const char *kind) {
 static void gen_typed(void) {
   static const char *pk[] = {"pack", "Package", "socket", "pa", "Socket"}, *nu[] = {"numa", "NUMANode", "node", "no"},
     *l3[] = {"l3", "L3Cache", "l3u", "L3"}, *l2[] = {"l2", "L2Cache", "L2u", "l2d"}, *l1[] = {"l1", "L1dCache", "l1d", "L1"},
-    *l1i[] = {"l1i", "L1iCache", "L1icache"}, *co[] = {"core", "Core", "co"}, *pu[] = {"pu", "PU", "Pu"},
+    *l1i[] = {"l1i", "L1iCache", "L1icache"}, *l2i[] = {"l2i", "L2iCache"}, *l3i[] = {"l3i", "L3iCache", "L3icache"}, *co[] = {"core", "Core", "co"}, *pu[] = {"pu", "PU", "Pu"},
     *gr[] = {"group", "Group", "gr", "Group2", "group0"}, *die[] = {"die", "Die", "di"};
   goff = 0; gbuf[0] = 0; gn = 1; gtotal = 1; gw[0] = 1; gt[0] = "machine";
   budget = rng_chance(85) ? 64 : rng_chance(70) ? 512 : 4096;
@@ -438,17 +646,21 @@ static void gen_typed(void) {
   int att_left = numa_mode == 2 ? 1 : numa_mode == 3 ? 2 : 0;
   if (rng_chance(8)) { ap("(%s)", rng_chance(50) ? "memory=4GB" : "foo"); }
   if (numa_mode == 4) { gen_attached(); }
-#define ATT() do { if (att_left && rng_chance(45)) { gen_attached(); att_left--; } } while (0)
+#define ATTP(p) do { if (att_left && rng_chance(p)) { gen_attached(); att_left--; } } while (0)
+#define ATT() ATTP(45)
   if (rng_chance(25)) { lvl(pick(gr, 5), "other"); ATT(); }
   if (rng_chance(65)) { lvl(pick(pk, 5), "other"); ATT(); }
   if (rng_chance(20)) { lvl(pick(die, 3), "other"); ATT(); }
   if (numa_mode == 1 && rng_chance(60)) { lvl(pick(nu, 4), "numa"); numa_mode = 0; }
   if (rng_chance(15)) { lvl(pick(gr, 5), "other"); ATT(); }
   if (rng_chance(40)) { lvl(pick(l3, 4), "cache"); ATT(); }
+  /* instruction caches (KEEP_NONE by default) are levels like any other: they may carry attached NUMA nodes */
+  if (rng_chance(8)) { lvl(pick(l3i, 3), "cache"); ATTP(65); }
   if (numa_mode == 1 && rng_chance(50)) { lvl(pick(nu, 4), "numa"); numa_mode = 0; }
   if (rng_chance(40)) { lvl(pick(l2, 4), "cache"); ATT(); }
+  if (rng_chance(10)) { lvl(pick(l2i, 2), "cache"); ATTP(65); }
   if (rng_chance(30)) { lvl(pick(l1, 4), "cache"); ATT(); }
-  if (rng_chance(20)) { lvl(pick(l1i, 3), "cache"); }
+  if (rng_chance(22)) { lvl(pick(l1i, 3), "cache"); ATTP(65); }
   if (numa_mode == 1) { lvl(pick(nu, 4), "numa"); numa_mode = 0; }
   if (rng_chance(75)) { lvl(pick(co, 3), "other"); ATT(); }
   if (att_left && gn > 1) gen_attached();
@@ -587,21 +799,33 @@ static void gen_string(void) {
   else gen_index_focus();
 }
 
+/* <hex> or <hex>@<F> */
+static char *split_desc(char *tok, const char **flt) {
+  char *at = strchr(tok, '@');
+  *flt = LEGACY_F;
+  if (at) { *at = 0; *flt = at + 1; if (!valid_f(*flt)) return NULL; }
+  return unhex(tok);
+}
 static int replay_line(char *line) {
   char *tok[8]; int nt = 0; char *save = NULL;
   for (char *t = strtok_r(line, " \n", &save); t && nt < 5; t = strtok_r(NULL, " \n", &save)) tok[nt++] = t;
   if (!nt) return 0;
-  if (!strcmp(tok[0], "init") && nt >= 3) { char *s = unhex(tok[2]); exec_init(strtoul(tok[1], NULL, 10), s); free(s); }
-  else if (!strcmp(tok[0], "set") && nt >= 2) { char *s = unhex(tok[1]); exec_set(s); free(s); }
-  else if (!strcmp(tok[0], "load") && nt >= 2) {
+  const char *flt = LEGACY_F; char *s = NULL;
+  if (!strcmp(tok[0], "init") && nt >= 3 && (s = split_desc(tok[2], &flt))) exec_init(strtoul(tok[1], NULL, 10), s);
+  else if (!strcmp(tok[0], "set") && nt >= 2 && (s = split_desc(tok[1], &flt))) exec_set(s);
+  else if (!strcmp(tok[0], "load") && nt >= 2 && (s = split_desc(tok[1], &flt))) {
     /* the dump in the op line came from the run that produced it; replay re-checks that the load still succeeds */
-    char *s = unhex(tok[1]); int pr = probe_load(s); fprintf(fout, "load %s\n", pr == 0 ? "ok" : pr == 3 ? "crash" : "fail"); free(s); }
-  else if (!strcmp(tok[0], "tryload") && nt >= 2) {
-    char *s = unhex(tok[1]); int pr = probe_load(s);
-    fprintf(fout, "tryload %s\n", pr == 0 ? "ok" : pr == 1 ? "EINVAL" : pr == 3 ? "crash" : "fail"); free(s); }
-  else if (!strcmp(tok[0], "export") && nt >= 4) { char *s = unhex(tok[3]); exec_export(strtoul(tok[1], NULL, 10), strtoul(tok[2], NULL, 10), s); free(s); }
-  else if (!strcmp(tok[0], "fix") && nt >= 3) { char *s = unhex(tok[2]); exec_fix(strtoul(tok[1], NULL, 10), s); free(s); }
+    int pr = probe_load(s, flt); fprintf(fout, "load %s\n", pr == 0 ? "ok" : pr == 3 ? "crash" : "fail"); }
+  else if (!strcmp(tok[0], "numas") && nt >= 2 && (s = split_desc(tok[1], &flt))) {
+    int pr = probe_load(s, flt);
+    if (pr) fprintf(fout, "numas %s\n", pr == 1 ? "EINVAL" : pr == 3 ? "crash" : "fail"); else exec_numas(s, flt); }
+  else if (!strcmp(tok[0], "tryload") && nt >= 2 && (s = split_desc(tok[1], &flt))) {
+    int pr = probe_load(s, flt);
+    fprintf(fout, "tryload %s\n", pr == 0 ? "ok" : pr == 1 ? "EINVAL" : pr == 3 ? "crash" : "fail"); }
+  else if (!strcmp(tok[0], "export") && nt >= 4 && (s = split_desc(tok[3], &flt))) exec_export(strtoul(tok[1], NULL, 10), strtoul(tok[2], NULL, 10), s, flt);
+  else if (!strcmp(tok[0], "fix") && nt >= 3 && (s = split_desc(tok[2], &flt))) exec_fix(strtoul(tok[1], NULL, 10), s, flt);
   else fputs("bad-op\n", fout);
+  free(s);
   return 0;
 }
 
@@ -617,6 +841,18 @@ int main(int argc, char **argv) {
     char *line = NULL; size_t cap = 0;
     while (getline(&line, &cap, f) > 0) { if (line[0] == '#' || line[0] == '\n') continue; replay_line(line); fflush(fout); }
     fclose(fout); fclose(f); free(line);
+    if (cur_t) hwloc_topology_destroy(cur_t);
+    free(cur_s);
+    return 0;
+  }
+  if (argc >= 6 && !strcmp(argv[1], "--desc")) {
+    /* synthetic --desc <description> <F> <ops> <out>: the ops (with the live dump) of one description under one filter string */
+    fops = fopen(argv[4], "w"); fout = fopen(argv[5], "w");
+    if (!fops || !fout || !valid_f(argv[3])) return 2;
+    rng_seed(rng_seed_from_env());
+    fputs("init 0 ", fops); put_hex(fops, argv[2]); fputc('\n', fops); exec_init(0, argv[2]);
+    if (probe_init(argv[2], 0) == 0) emit_load_cfg(argv[2], argv[3], 0);
+    fclose(fops); fclose(fout);
     if (cur_t) hwloc_topology_destroy(cur_t);
     free(cur_s);
     return 0;
